@@ -38,6 +38,14 @@ func init() {
 				e.Violate("c07-truthiness", fmt.Sprintf("unknown identifier: the contexts gave %q (%s)", o.Out, o.Class), map[string]interface{}{"case": c, "observed": o})
 			}
 		}
+		// a dotted path whose root is unknown is an unknown identifier too
+		for _, x := range []string{"nosuch.Admin", "nosuch.a.b", "(nosuch.Admin)"} {
+			c := RCase{Tmpl: ctxT(x), Binds: pool}
+			o := e.addRenderCase("matrix", c)
+			if o.Class != "OK" || o.Out != want(false) {
+				e.Violate("c07-truthiness", fmt.Sprintf("unknown identifier %s: the contexts gave %q (%s %s)", x, o.Out, o.Class, firstLine(o.Msg)), map[string]interface{}{"case": c, "observed": o})
+			}
+		}
 		extra := c04extra()
 		xfalsy := map[string]bool{}
 		for k, v := range extra {
